@@ -1,4 +1,5 @@
 let () =
   match Array.to_list Sys.argv with
   | [_; "cursor"; file] -> let ic = open_in file in Cursor_drv.run ic; close_in ic
+  | [_; "codec"; file] -> let ic = open_in file in Codec_drv.run ic; close_in ic
   | _ -> prerr_endline "usage: model_run <campaign> <casefile>"; exit 2
